@@ -4,8 +4,9 @@
 (*                                                                         *)
 (* The abstract gateway S3Gw with lock state: versions carry `hold` and     *)
 (* `ret` (a LockRules retention record), the bucket has a default retention *)
-(* `ldef`, `perm` is the set of callers to whom the bucket policy grants    *)
-(* s3:BypassGovernanceRetention, `now` is an abstract clock.                *)
+(* `ldef`, `perm` is the set of grants "<caller>:<scope>" of                *)
+(* s3:BypassGovernanceRetention in the bucket policy (scope "*" = every key *)
+(* of the bucket, or one key), `now` is an abstract clock.                  *)
 (* One lock bucket "bkt" (versioned: gateway with a versioning directory;   *)
 (* unversioned: gateway without one), the protected key k1 and a copy       *)
 (* source k2.  A behaviour starts in a state in which the version P of k1   *)
@@ -24,7 +25,8 @@
 (***************************************************************************)
 EXTENDS S3Gw, LockRules
 
-CONSTANTS Kinds,        \* subset of {"hold","compliance","governance","defcompliance","defgovernance"}
+CONSTANTS Kinds,        \* subset of {"hold","compliance","governance","governance2","defcompliance","defgovernance"}
+                        \* (governance2: P on k1 AND the version of k2 carry a GOVERNANCE retention)
           BucketKinds,  \* subset of {"versioned","unversioned"}
           PermInits,    \* set of initial values of perm
           CallerSet,    \* subset of {"root","admin","owner","other"} (root, admin and owner are
@@ -34,9 +36,11 @@ CONSTANTS Kinds,        \* subset of {"hold","compliance","governance","defcompl
           Defects,      \* named deviations of the real gateway, {} = the gateway the property demands:
                         \*   "copy-unchecked", "mpu-unchecked": CopyObject / CompleteMultipartUpload do not
                         \*   consult the lock state;  "lockcfg-disable": a lock configuration without
-                        \*   ObjectLockEnabled is accepted and switches Object Lock off.
+                        \*   ObjectLockEnabled is accepted and switches Object Lock off;
+                        \*   "bypass-cached": a batch delete computes the bypass verdict for the first
+                        \*   GOVERNANCE-locked key and reuses it for the other keys.
                         \* With a defect switched on TLC must find a counterexample (non-vacuity self-test).
-          Phase         \* "any" | "pairs" (step 1 weakens, step 2 destroys) | "destroy" | "weaken" | "expiry" | "chains"
+          Phase         \* "any" | "pairs" (step 1 weakens, step 2 destroys) | "destroy" | "weaken" | "expiry" | "chains" | "batch"
 
 VARIABLES ldef, perm, now, ini
 lvars == <<bkts, objs, ups, nvid, nup, tr, ldef, perm, now, ini>>
@@ -64,7 +68,7 @@ Inis == {i \in [kind : Kinds, bk : BucketKinds, pos : {"current", "noncurrent"},
 IsVersioned(i) == i.bk = "versioned"
 PVid(i) == IF IsVersioned(i) THEN "v1" ELSE "null"
 PRet(i) == CASE i.kind = "compliance" -> Ret("COMPLIANCE", TM)
-             [] i.kind = "governance" -> Ret("GOVERNANCE", TM)
+             [] i.kind \in {"governance", "governance2"} -> Ret("GOVERNANCE", TM)
              [] OTHER -> NoRet
 PVer(i) == [LVersion(PVid(i), "A") EXCEPT !.hold = (i.kind = "hold"), !.ret = PRet(i)]
 Def0(i) == CASE i.kind = "defcompliance" -> Ret("COMPLIANCE", TD)
@@ -77,7 +81,8 @@ Init ==
                                   lock |-> TRUE, tags |-> "-", policy |-> "-"]]
     /\ objs = [bk \in Buckets \X Keys |->
                  IF bk[2] = K THEN (IF ini.pos = "noncurrent" THEN <<LVersion("v3", "C"), PVer(ini)>> ELSE <<PVer(ini)>>)
-                 ELSE IF bk[2] = SrcK THEN <<LVersion(IF IsVersioned(ini) THEN "v2" ELSE "null", "B")>>
+                 ELSE IF bk[2] = SrcK THEN <<[LVersion(IF IsVersioned(ini) THEN "v2" ELSE "null", "B") EXCEPT
+                                                !.ret = IF ini.kind = "governance2" THEN Ret("GOVERNANCE", TM) ELSE NoRet]>>
                  ELSE <<>>]
     /\ ups = [u \in Uploads |-> NoUpload]
     /\ nup = 0
@@ -100,7 +105,12 @@ LLog(op, a, r) ==
 Refuse(op, a, code) == UNCHANGED <<bkts, objs, ups, nvid, nup, ldef, perm, now, ini>> /\ LLog(op, a, Err(code))
 Versioned == bkts[B].ver = "Enabled"
 \* the model gateway's own rule (S3: permission and header)
-Blocked(e, c, h) == bkts[B].lock /\ ~e.dm /\ Protected(e.hold, e.ret, ldef, c \in perm, h, now, TRUE)
+Has(c, k) == HasBypass(perm, c, k)
+BlockedH(e, has, h) == bkts[B].lock /\ ~e.dm /\ Protected(e.hold, e.ret, ldef, has, h, now, TRUE)
+\* e is an entry of key k
+Blocked(e, k, c, h) == BlockedH(e, Has(c, k), h)
+\* only a GOVERNANCE retention stands in the way: the bypass verdict decides
+GovOnly(e) == ~e.dm /\ BlockedH(e, FALSE, FALSE) /\ Class(e.hold, e.ret, ldef, now) = "governance"
 
 MinOf(S) == CHOOSE i \in S : \A j \in S : i <= j
 NewIdx == {i \in DOMAIN Stack(B, K) : ~Stack(B, K)[i].dm /\ Stack(B, K)[i].vid \notin {"null", "v1", "v2", "v3"}}
@@ -125,7 +135,7 @@ WriteOnto(op, a, c, h, content) ==
          /\ nvid' = nvid + 1
          /\ UNCHANGED <<bkts, ups, nup, ldef, perm, now, ini>>
          /\ LLog(op, a, [status |-> "ok", vid |-> VidName(nvid + 1)])
-    ELSE IF Stack(B, K) # <<>> /\ Blocked(Head1(Stack(B, K)), c, h) /\ ~Unchecked(op) THEN Refuse(op, a, "ObjectLocked")
+    ELSE IF Stack(B, K) # <<>> /\ Blocked(Head1(Stack(B, K)), K, c, h) /\ ~Unchecked(op) THEN Refuse(op, a, "ObjectLocked")
     ELSE /\ objs' = [objs EXCEPT ![<<B, K>>] = <<LVersion("null", content)>>]
          /\ UNCHANGED <<bkts, ups, nvid, nup, ldef, perm, now, ini>>
          /\ LLog(op, a, [status |-> "ok", vid |-> "null"])
@@ -148,7 +158,7 @@ LDeleteObject(c, h) ==
          /\ nvid' = nvid + 1
          /\ UNCHANGED <<bkts, ups, nup, ldef, perm, now, ini>>
          /\ LLog("DeleteObject", a, [status |-> "ok", dm |-> TRUE])
-    ELSE IF Blocked(Head1(Stack(B, K)), c, h) THEN Refuse("DeleteObject", a, "ObjectLocked")
+    ELSE IF Blocked(Head1(Stack(B, K)), K, c, h) THEN Refuse("DeleteObject", a, "ObjectLocked")
     ELSE /\ objs' = [objs EXCEPT ![<<B, K>>] = <<>>]
          /\ UNCHANGED <<bkts, ups, nvid, nup, ldef, perm, now, ini>>
          /\ LLog("DeleteObject", a, [status |-> "ok", dm |-> FALSE])
@@ -159,17 +169,28 @@ LDeleteVersion(c, h, role) ==
     /\ vid # "-"
     /\ IF ~Exists(B) THEN Refuse("DeleteObjectVersion", a, "NoSuchBucket")
        ELSE IF ~HasVid(Stack(B, K), vid) THEN Refuse("DeleteObjectVersion", a, "NoSuchVersion")
-       ELSE IF Blocked(EntryOf(Stack(B, K), vid), c, h) THEN Refuse("DeleteObjectVersion", a, "ObjectLocked")
+       ELSE IF Blocked(EntryOf(Stack(B, K), vid), K, c, h) THEN Refuse("DeleteObjectVersion", a, "ObjectLocked")
        ELSE /\ objs' = [objs EXCEPT ![<<B, K>>] = WithoutVid(@, vid)]
             /\ UNCHANGED <<bkts, ups, nvid, nup, ldef, perm, now, ini>>
             /\ LLog("DeleteObjectVersion", a, [status |-> "ok", vid |-> vid])
 
 \* batch delete: items are "cur" (k1 without version id), "P" (k1 with P's version id), "k2"
-ItemSets == {<<"cur">>, <<"P">>, <<"k2", "P">>, <<"cur", "k2">>, <<"k2", "cur">>}
+ItemSets == {<<"cur">>, <<"P">>, <<"k2", "P">>, <<"P", "k2">>, <<"cur", "k2">>, <<"k2", "cur">>}
 ItemKey(it) == IF it = "k2" THEN SrcK ELSE K
-ItemBlocked(it, c, h) ==
-    IF it = "P" THEN HasVid(Stack(B, K), PVid(ini)) /\ Blocked(EntryOf(Stack(B, K), PVid(ini)), c, h)
-    ELSE ~Versioned /\ Stack(B, ItemKey(it)) # <<>> /\ Blocked(Head1(Stack(B, ItemKey(it))), c, h)
+\* the entry an item would destroy (a sequence of 0 or 1 entries): a version id names its
+\* entry; a key without version id destroys the object only in the unversioned bucket
+ItemEntry(it) ==
+    IF it = "P" THEN (IF HasVid(Stack(B, K), PVid(ini)) THEN <<EntryOf(Stack(B, K), PVid(ini))>> ELSE <<>>)
+    ELSE IF ~Versioned /\ Stack(B, ItemKey(it)) # <<>> THEN <<Head1(Stack(B, ItemKey(it)))>> ELSE <<>>
+\* the bypass verdict is a verdict about the caller AND the item's key.  Defect
+\* "bypass-cached": it is computed for the first item that needs it and reused for the rest.
+FirstGov(items) == {i \in DOMAIN items : ItemEntry(items[i]) # <<>> /\ GovOnly(ItemEntry(items[i])[1])
+                                          /\ \A j \in 1 .. i - 1 : ItemEntry(items[j]) = <<>> \/ ~GovOnly(ItemEntry(items[j])[1])}
+ItemHas(items, i, c) ==
+    IF "bypass-cached" \in Defects /\ FirstGov(items) # {}
+    THEN Has(c, ItemKey(items[CHOOSE f \in FirstGov(items) : TRUE]))
+    ELSE Has(c, ItemKey(items[i]))
+ItemBlocked(items, i, c, h) == ItemEntry(items[i]) # <<>> /\ BlockedH(ItemEntry(items[i])[1], ItemHas(items, i, c), h)
 ApplyItem(acc, it) ==
     LET bk == <<B, ItemKey(it)>>
         st == acc.o[bk] IN
@@ -182,7 +203,7 @@ LDeleteObjects(c, h, items) ==
         a1 == ApplyItem([o |-> objs, n |-> nvid], items[1])
         res == IF Len(items) = 1 THEN a1 ELSE ApplyItem(a1, items[2]) IN
     IF ~Exists(B) THEN Refuse("DeleteObjects", a, "NoSuchBucket")
-    ELSE IF \E i \in DOMAIN items : ItemBlocked(items[i], c, h) THEN Refuse("DeleteObjects", a, "ObjectLocked")
+    ELSE IF \E i \in DOMAIN items : ItemBlocked(items, i, c, h) THEN Refuse("DeleteObjects", a, "ObjectLocked")
     ELSE /\ objs' = res.o
          /\ nvid' = res.n
          /\ UNCHANGED <<bkts, ups, nup, ldef, perm, now, ini>>
@@ -222,7 +243,8 @@ LPutLockConfig(c, en, d) ==
          /\ UNCHANGED <<objs, ups, nvid, nup, perm, now, ini>>
          /\ LLog("PutLockConfig", a, [status |-> "ok"])
 
-Grants == {{}, Callers} \cup {{c} : c \in Callers}
+\* no grant; everybody on every key; one caller on every key; one caller on one key only
+Grants == {{}, {Grant(c, "*") : c \in Callers}} \cup {{Grant(c, sc)} : c \in Callers, sc \in {"*", K, SrcK}}
 LPutBucketPolicy(c, G) ==
     LET a == [caller |-> c, hdr |-> FALSE, b |-> B, grant |-> G] IN
     IF ~Exists(B) THEN Refuse("PutBucketPolicy", a, "NoSuchBucket")
@@ -252,7 +274,7 @@ LPutRetention(c, h, role, m, u) ==
        ELSE IF i = 0 THEN Refuse("PutRetention", a, "NoSuchKey")
        ELSE IF Stack(B, K)[i].dm THEN Refuse("PutRetention", a, "MethodNotAllowed")
        ELSE IF u <= now THEN Refuse("PutRetention", a, "InvalidArgument")
-       ELSE IF ~RetChangeOK(Stack(B, K)[i].ret, Ret(m, u), c \in perm, h, now, TRUE) THEN Refuse("PutRetention", a, "AccessDenied")
+       ELSE IF ~RetChangeOK(Stack(B, K)[i].ret, Ret(m, u), Has(c, K), h, now, TRUE) THEN Refuse("PutRetention", a, "AccessDenied")
        ELSE /\ objs' = [objs EXCEPT ![<<B, K>>][i].ret = Ret(m, u)]
             /\ UNCHANGED <<bkts, ups, nvid, nup, ldef, perm, now, ini>>
             /\ LLog("PutRetention", a, [status |-> "ok"])
@@ -287,6 +309,8 @@ Op == CASE Phase = "pairs"   -> IF Len(tr) = 0 THEN Weaken(Callers \cap {"root",
         \* version-stack surgery: markers, deletions by version id (which promote older versions), pushes
         [] Phase = "chains"  -> \E c \in Callers : \/ LPutObject(c, FALSE) \/ LDeleteObject(c, FALSE)
                                                    \/ \E role \in {"P", "new", "latest"} : LDeleteVersion(c, FALSE, role)
+        \* batch deletes only (used with key-scoped grants and GOVERNANCE on both keys)
+        [] Phase = "batch"   -> \E c \in Callers, h \in BOOLEAN, items \in ItemSets : LDeleteObjects(c, h, items)
         [] OTHER             -> Destroy(Callers) \/ Weaken(Callers)
 
 Report == /\ Len(tr) = MaxOps
@@ -311,7 +335,7 @@ SameVersion(e, f) == f.vid = e.vid /\ f.c = e.c /\ ~f.dm
 IntactStep(strict) ==
     \A k \in Keys : \A i \in DOMAIN Stack(B, k) :
         LET e == Stack(B, k)[i] IN
-        (~e.dm /\ Protected(e.hold, e.ret, ldef, LastStep.a.caller \in perm, LastStep.a.hdr, now, strict))
+        (~e.dm /\ Protected(e.hold, e.ret, ldef, Has(LastStep.a.caller, k), LastStep.a.hdr, now, strict))
             => \E j \in DOMAIN Stack(B, k)' : SameVersion(e, Stack(B, k)'[j])
 ProtectedIntact == [][Stepped => IntactStep(TRUE)]_lvars
 ProtectedIntactStmt == [][Stepped => IntactStep(FALSE)]_lvars
@@ -322,7 +346,7 @@ MonotoneStep(strict) ==
     \A k \in Keys : \A i \in DOMAIN Stack(B, k) : \A j \in DOMAIN Stack(B, k)' :
         LET e == Stack(B, k)[i]
             f == Stack(B, k)'[j] IN
-        (~e.dm /\ SameVersion(e, f)) => RetChangeOK(e.ret, f.ret, LastStep.a.caller \in perm, LastStep.a.hdr, now, strict)
+        (~e.dm /\ SameVersion(e, f)) => RetChangeOK(e.ret, f.ret, Has(LastStep.a.caller, k), LastStep.a.hdr, now, strict)
 ComplianceMonotone == [][Stepped => MonotoneStep(TRUE)]_lvars
 ComplianceMonotoneStmt == [][Stepped => MonotoneStep(FALSE)]_lvars
 
@@ -331,5 +355,5 @@ LockStaysOn == [][(Exists(B) /\ Exists(B)') => (bkts[B].lock' = bkts[B].lock /\ 
 
 LTypeOK == /\ TypeOK
            /\ now \in 0 .. MaxTick
-           /\ perm \subseteq Callers
+           /\ perm \subseteq {Grant(c, sc) : c \in Callers, sc \in {"*", K, SrcK}}
 =============================================================================
